@@ -109,6 +109,13 @@ func runC17(seed int64, count int) {
 					hs = append(hs, hexOrDash(p))
 				}
 				t.Writev(bufs)
+				if rng.Intn(2) == 0 { // the caller recycles its buffers as soon as Writev has returned (the channel's sender does)
+					for _, b := range bufs {
+						for i := range b {
+							b[i] = 0xEE
+						}
+					}
+				}
 				arg := strings.Join(hs, ",")
 				if k == 0 {
 					arg = "-"
@@ -139,5 +146,25 @@ func runC17(seed int64, count int) {
 			emit("C17 read %d %s", k, hexOrDash(buf[:n]))
 		}
 		_ = hex.EncodeToString
+		// connections are independent: after this transport is closed (once or twice) and written to once more by a
+		// holder that has not noticed, new transports of the same configuration carry exactly their own bytes
+		if ws > 0 && cs%4 == 0 {
+			t.Close()
+			if rng.Intn(2) == 0 {
+				t.Close()
+			}
+			c2, c3 := &memConn{}, &memConn{}
+			t2 := transport.NewTransport(c2, rs, ws)
+			t3 := transport.NewTransport(c3, rs, ws)
+			t.Write([]byte("STALE"))
+			m2, m3 := payload(1+rng.Intn(2*ws+3)), payload(1+rng.Intn(2*ws+3))
+			t2.Write(m2)
+			t3.Write(m3)
+			t.Write([]byte("STALE2"))
+			t2.Flush()
+			t3.Flush()
+			emit("C17 iso %s %s", hexOrDash(m2), hexOrDash(c2.take()))
+			emit("C17 iso %s %s", hexOrDash(m3), hexOrDash(c3.take()))
+		}
 	}
 }
